@@ -9,7 +9,15 @@
    Part 3  symbolic signed requests of the content-security gate and what "pass"
            means (rest/internal/security/contentsecurity.go, strict mode of
            rest/handler/contentsecurityhandler.go), and the encryption round trip
-           (rest/handler/cryptionhandler.go)
+           (rest/handler/cryptionhandler.go); timestamps anywhere on the integer line
+           (offsets s*m*2^k + j from the server clock, every k up to 63); the handler's
+           response write program and the buffering writer as an implementation-shaped
+           machine (invariant: the writer holds exactly what was passed to Write)
+   Part 4  the server wiring: how rest/engine.go composes the chain of a route declared
+           WithJwt / WithJwtTransition / WithSignature under every chain configuration
+           (native middlewares, a user supplied chain, Use middlewares, route options);
+           invariant: every declared gate is in the chain; a route that declares both
+           gates runs its handler only if both pass
 
    Cryptography is symbolic: a MAC is a term that names the key and the exact
    text it covers; it verifies under a key iff it is that term.  Strength of the
@@ -17,9 +25,13 @@
    free the verdict is "either" and both outcomes are behaviours of the spec.    *)
 EXTENDS Integers, Sequences, FiniteSets, TLC
 
-CONSTANT Variant   \* "both": ParseToken as written (try the more successful secret first,
-                   \* then the other one); "firstOnly": a wrong optimisation kept as a
-                   \* documented counterexample (GatesBug.cfg)
+CONSTANT Variant   \* "both": the code as written (ParseToken tries the more successful secret first,
+                   \* then the other one; the response writer copies what it is given; bindRoute
+                   \* appends the gates to whatever chain the route gets).  Wrong optimisations kept
+                   \* as documented counterexamples:
+                   \*   "firstOnly"       try only the more successful secret        (GatesBug.cfg)
+                   \*   "adoptFirst"      the writer adopts the caller's first slice (GatesBugWp.cfg)
+                   \*   "authNativeOnly"  gates appended to the native chain only    (GatesBugWire.cfg)
 
 (***************************************************************************)
 (* Part 1.  JWT                                                            *)
@@ -135,14 +147,21 @@ VARIABLES
   now,       \* relative clock, hours (timex.Now)
   resetAt,   \* TokenParser.resetTime (never moved by the code: after the first period every
              \* increment wipes the counters -- harmless, modelled as it is)
-  resp       \* the last response: [gate, calls, status]
+  resp,      \* the last response: [gate, calls, status]
+  wire       \* how the gate of this middleware instance / server was wired (Part 4); never read by a
+             \* verdict: what a protected handler may do is the same function of the credential under
+             \* every wiring
 
-gvars == <<prevCfg, cnt, now, resetAt, resp>>
+gvars == <<prevCfg, cnt, now, resetAt, resp, wire>>
 
 ResetDur == 24
 NoResp   == [gate |-> "none", calls |-> 0, status |-> 0]
 
+\* wiring of a gate used directly as a middleware (package handler), declaring gate d
+DirectWire(d) == [level |-> "handler", chain |-> "none", use |-> 0, ropts |-> FALSE, decl |-> d]
+
 GInit(p) == prevCfg = p /\ cnt = [cur |-> 0, prev |-> 0] /\ now = 0 /\ resetAt = 0 /\ resp = NoResp
+            /\ wire = DirectWire("jwt")
 
 \* what one doParseToken call answers for secret s (jwt/v4 as configured by go-zero: accepts
 \* the token without / with lower-case "Bearer ", rejects iat in the future)
@@ -173,9 +192,9 @@ JwtReq(t, ran, hstatus) ==
               THEN IF ParsesUnder(t, First(cnt)) THEN Bump(cnt, First(cnt))
                    ELSE IF ParsesUnder(t, Second(cnt)) THEN Bump(cnt, Second(cnt)) ELSE cnt
               ELSE cnt
-  /\ UNCHANGED <<prevCfg, now, resetAt>>
+  /\ UNCHANGED <<prevCfg, now, resetAt, wire>>
 
-Tick(d) == now' = now + d /\ UNCHANGED <<prevCfg, cnt, resetAt, resp>>
+Tick(d) == now' = now + d /\ UNCHANGED <<prevCfg, cnt, resetAt, resp, wire>>
 
 (***************************************************************************)
 (* Part 3.  Content security (strict mode) and the encryption round trip   *)
@@ -187,6 +206,29 @@ Queries  == {"none", "q0", "q1", "q0perm"}            \* q0perm: same pairs as q
 Bodies   == {"none", "b0", "b1", "junk"}              \* junk: signed like any body, but not a ciphertext
 TsVals   == {"in", "in2", "inLo", "inHi", "old", "ahead", "nan", "empty"}
 InWindow == {"in", "in2", "inLo", "inHi"}             \* |ts - now| <= tolerance (Lo/Hi: near the edges)
+\* A timestamp is a decimal integer; the statement quantifies over all of them.  Class "off" places it
+\* anywhere on the integer line relative to the server clock: r.off = [s, m, k, j] stands for
+\*      ts = now + s * m * 2^k + j * Jit      (s = +-1, m >= 0, 0 <= k <= 63, j in -1..1)
+\* i.e. every binary order of magnitude, small odd multiples of it, exactly on it and displaced by almost
+\* the tolerance to either side -- the values where fixed-width arithmetic (seconds -> milli/nanoseconds,
+\* narrowing to 32 bits, sums next to the ends of the 64-bit range) wraps around.  Values that do not
+\* fit 64 bits are still decimal integers far outside the window.  (An "off" timestamp is only ever
+\* signed as itself: ts = sts = "off" share r.off; the mutation sets use TsVals.)
+TsAll    == TsVals \cup {"off"}
+TolS     == 3600                                       \* the tolerance the gates are configured with, seconds
+Margin   == 120                                        \* clock skew between signing and verifying the drivers stay clear of
+Jit      == TolS - Margin
+NoOff    == [s |-> 1, m |-> 0, k |-> 0, j |-> 0]
+Offs     == [s : {-1, 1}, m : 0..7, k : 0..63, j : -1..1]
+RECURSIVE Pow2(_)
+Pow2(k)  == IF k = 0 THEN 1 ELSE 2 * Pow2(k - 1)
+AbsI(x)  == IF x < 0 THEN -x ELSE x
+\* "in": within tolerance whatever the skew; "out": outside whatever the skew; "edge": the skew decides
+OffClass(o) ==
+  IF o.m = 0 THEN "in"                                                         \* |j * Jit| <= TolS - Margin
+  ELSE IF o.k > 20 THEN "out"                                                  \* m * 2^k >= 2^21 > TolS + Margin + Jit
+  ELSE LET d == AbsI(o.s * o.m * Pow2(o.k) + o.j * Jit)
+       IN IF d <= TolS - Margin THEN "in" ELSE IF d >= TolS + Margin THEN "out" ELSE "edge"
 Fps      == {"A", "B", "unknown", "empty"}            \* A, B: the configured key fingerprints
 EncTos   == {"A", "B", "other", "junk", "notB64", "empty"}   \* which RSA key the secret is encrypted to
 SecretWf == {"ok", "badKey", "noTime", "noType", "badType"}
@@ -196,12 +238,25 @@ Lens     == {0, 1, 15, 16, 17, 4096}
 \* (http.Request.ContentLength = the length), or not announced (Transfer-Encoding: chunked,
 \* http.Request.ContentLength = -1: the body ends where the stream ends)
 Xfers    == {"sized", "chunked"}
+\* How the protected handler produces its response: a program over a buffer it owns and reuses.
+\*   fill      load the next piece of the response (r.rlen bytes) into the buffer
+\*   write     Write(buffer)                  wpriv   Write(a fresh slice nobody touches again)
+\*   scribble  overwrite the buffer (it is the handler's: after Write returned it may do so, io.Writer contract)
+\*   wempty    Write(buffer[:0])              flush   http.Flusher.Flush, if the writer offers it
+\* <<>>: the response r.rlen bytes long is written from a private slice in r.chunks calls.
+WOps     == {"fill", "write", "scribble", "wpriv", "wempty", "flush"}
+WritesData(op) == op \in {"write", "wpriv"}
+\* Once the handler has flushed, the status line that went out is the business of whatever writer stands
+\* in front of the gate (rest's TimeoutHandler lets a flushed response leave with 200 whatever code the
+\* handler set): not this property's, so the status of such a response is not constrained here.
+Flushes(r) == \E i \in 1..Len(r.wp) : r.wp[i] = "flush"
 
 CsReq == [hdr : {"present", "missing"}, fp : Fps, encTo : EncTos, swf : SecretWf, type : {"plain", "enc"},
-          ts : TsVals, method : Methods, path : Paths, query : Queries, body : Bodies,           \* the request
-          sform : SigForms, sts : TsVals, smethod : Methods, spath : Paths, squery : Queries,
+          ts : TsAll, method : Methods, path : Paths, query : Queries, body : Bodies,            \* the request
+          sform : SigForms, sts : TsAll, smethod : Methods, spath : Paths, squery : Queries,
           sbody : Bodies,                                                                        \* what was signed
-          plen : Lens, rlen : Lens, chunks : {1, 2}, xfer : Xfers]
+          off : Offs,                                                                            \* for ts / sts = "off"
+          plen : Lens, rlen : Lens, chunks : {1, 2}, wp : Seq(WOps), xfer : Xfers]
 
 Signed(r) == <<r.sts, r.smethod, r.spath, r.squery, r.sbody>>
 Actual(r) == <<r.ts,  r.method,  r.path,  r.query,  r.body>>
@@ -209,12 +264,14 @@ Actual(r) == <<r.ts,  r.method,  r.path,  r.query,  r.body>>
 \* the signature is the HMAC, under the key inside a secret that is encrypted to the configured
 \* RSA key the fingerprint names, of exactly the request's timestamp, method, path, query and
 \* body digest, and the timestamp is within tolerance.  The body is the bytes the handler can
-\* read, however their length was announced: r.xfer does not occur in this definition.
+\* read, however their length was announced: r.xfer does not occur in this definition; nor does
+\* r.wp: what the handler will write decides nothing.
+TsClass(r) == IF r.ts = "off" THEN OffClass(r.off) ELSE IF r.ts \in InWindow THEN "in" ELSE "out"
 CsPass(r) ==
   /\ r.hdr = "present"
   /\ r.fp \in {"A", "B"} /\ r.encTo = r.fp
   /\ r.swf \notin {"badKey", "noTime"}
-  /\ r.ts \in InWindow
+  /\ TsClass(r) # "out"
   /\ r.sform = "ok"
   /\ Signed(r) = Actual(r)
 
@@ -222,6 +279,7 @@ HasCipherBody(r) == r.type = "enc" /\ r.body # "none"
 
 CsVerdict(r) ==
   IF ~CsPass(r) THEN "no"
+  ELSE IF TsClass(r) = "edge" THEN "either"               \* closer to the edge of the window than the clock skew
   ELSE IF r.swf # "ok" THEN "either"                      \* content type unreadable: not the statement's business
   ELSE IF HasCipherBody(r) /\ r.body = "junk" THEN "either" \* properly signed, but not decryptable
   ELSE "yes"
@@ -229,7 +287,8 @@ CsVerdict(r) ==
 \* Observations about one request that ran (strings "<len>:<digest>" made by the driver):
 \*   wire  body sent            payload  plaintext the client meant
 \*   hbody what the handler read
-\*   rpay  what the handler wrote    rraw  response body on the wire    rdec  rraw decrypted by the client ("fail")
+\*   rpay  what the handler wrote: the bytes it passed to Write, as they were when each call was made, in order
+\*   rraw  response body on the wire    rdec  rraw decrypted by the client ("fail")
 EmptyId == "0:e3b0c44298fc1c14"     \* length 0, first 16 hex digits of sha256("")
 RoundTrip(r, o) ==
   IF HasCipherBody(r)
@@ -243,9 +302,9 @@ RoundTrip(r, o) ==
 CsReqAct(r, ran, hstatus, status, o) ==
   /\ Allowed(CsVerdict(r), ran)
   /\ ran /\ r.swf = "ok" => RoundTrip(r, o)
-  /\ ran => status = hstatus
+  /\ ran /\ ~Flushes(r) => status = hstatus
   /\ resp' = [gate |-> "cs", calls |-> IF ran THEN 1 ELSE 0, status |-> status]
-  /\ UNCHANGED <<prevCfg, cnt, now, resetAt>>
+  /\ UNCHANGED <<prevCfg, cnt, now, resetAt, wire>>
 
 \* Known finding: requests whose method is not GET/POST/PUT/DELETE are handed to the protected
 \* handler untouched -- no signature verification, no decryption, no response encryption
@@ -258,7 +317,7 @@ KF_CsUnverifiedMethod(r, ran, status, o) ==
   /\ ran
   /\ o.hbody = o.wire /\ o.rraw = o.rpay
   /\ resp' = [gate |-> "cs", calls |-> 1, status |-> status]
-  /\ UNCHANGED <<prevCfg, cnt, now, resetAt>>
+  /\ UNCHANGED <<prevCfg, cnt, now, resetAt, wire>>
 
 \* Known finding: a correctly signed request of type "encrypted" whose body length is not
 \* announced (chunked) is verified (the signature covers the body) but then handed to the
@@ -271,7 +330,86 @@ KF_CsChunkedCipher(r, ran, hstatus, status, o) ==
   /\ ran /\ status = hstatus
   /\ o.hbody = o.wire /\ o.rraw = o.rpay
   /\ resp' = [gate |-> "cs", calls |-> 1, status |-> status]
-  /\ UNCHANGED <<prevCfg, cnt, now, resetAt>>
+  /\ UNCHANGED <<prevCfg, cnt, now, resetAt, wire>>
+
+(***************************************************************************)
+(* Part 3b.  The buffering response writer (cryptionResponseWriter)         *)
+(***************************************************************************)
+\* Contents are symbolic: every fill / scribble gives the handler's buffer a fresh content id, every
+\* private slice has its own.  A writer state:
+\*   hbuf    content now in the handler's buffer (0: as allocated)     nxt  next fresh id
+\*   passed  Layer P: the contents passed to Write, as they were at the time of each call
+\*   held    Layer I: what the buffering writer holds -- cells [alias, id]: its own copy of content id,
+\*           or (alias) the caller's buffer itself, whose content is whatever the buffer holds *now*
+WInit == [hbuf |-> 0, nxt |-> 1, passed |-> <<>>, held |-> <<>>]
+HeldView(w) == [i \in 1..Len(w.held) |-> IF w.held[i].alias THEN w.hbuf ELSE w.held[i].id]
+WStep(w, op) ==
+  CASE op \in {"fill", "scribble"} -> [w EXCEPT !.hbuf = w.nxt, !.nxt = w.nxt + 1]
+    [] op = "write" ->
+         [w EXCEPT !.passed = Append(@, w.hbuf),
+                   !.held = Append(@, IF Variant = "adoptFirst" /\ w.held = <<>>
+                                        THEN [alias |-> TRUE, id |-> 0]        \* keeps the caller's slice
+                                        ELSE [alias |-> FALSE, id |-> w.hbuf])] \* bytes.Buffer.Write copies
+    [] op = "wpriv" ->
+         [w EXCEPT !.passed = Append(@, w.nxt), !.held = Append(@, [alias |-> FALSE, id |-> w.nxt]), !.nxt = w.nxt + 1]
+    [] OTHER -> w                                                              \* wempty, flush: no data
+WRun(prog) == LET RECURSIVE R(_)
+                  R(n) == IF n = 0 THEN WInit ELSE WStep(R(n - 1), prog[n])
+              IN R(Len(prog))
+\* io.Writer: "Write must not retain p".  At every moment -- the deferred flush may come after any
+\* step -- what will be encrypted is what the handler wrote; decrypting the symbolic ciphertext of a
+\* content sequence gives that sequence back, so this is the response half of RoundTrip.
+WContract(w) == HeldView(w) = w.passed
+
+(***************************************************************************)
+(* Part 4.  Server wiring (rest/engine.go bindRoute)                        *)
+(***************************************************************************)
+\* Which chain the route's handler is put behind:
+\*   nativeFull / nativeBase / nativeBare   the engine builds the chain from RestConf.Middlewares
+\*                                          (all of them / recover, maxbytes, gunzip / none)
+\*   custom / customEmpty                   the server was created WithChain(a chain of user middlewares /
+\*                                          an empty chain)
+\* use: number of middlewares added with Server.Use;  ropts: the route group also carries WithPriority,
+\* WithTimeout, WithMaxBytes;  decl: the gates the route group declares.
+WChains   == {"nativeFull", "nativeBase", "nativeBare", "custom", "customEmpty"}
+NativeCh  == {"nativeFull", "nativeBase", "nativeBare"}
+Decls     == {"jwt", "cs", "both"}
+WireCfgs  == [level : {"engine"}, chain : WChains, use : 0..2, ropts : BOOLEAN]
+WithDecl(c, d) == [level |-> c.level, chain |-> c.chain, use |-> c.use, ropts |-> c.ropts, decl |-> d]
+Wirings   == {WithDecl(c, d) : c \in WireCfgs, d \in Decls} \cup {DirectWire(d) : d \in Decls}
+
+NativeOf(c) == CASE c = "nativeFull" -> <<"trace", "log", "prometheus", "maxconns", "breaker", "shedding",
+                                          "timeout", "recover", "metrics", "maxbytes", "gunzip">>
+                 [] c = "nativeBase" -> <<"recover", "maxbytes", "gunzip">>
+                 [] OTHER -> <<>>
+GatesOf(d)  == (IF d \in {"jwt", "both"} THEN <<"authorize">> ELSE <<>>) \o
+               (IF d \in {"cs", "both"} THEN <<"signature">> ELSE <<>>)
+\* Layer I: the middleware chain bindRoute composes in front of the route's handler
+ChainOf(w) ==
+  IF w.level = "handler" THEN GatesOf(w.decl)
+  ELSE LET base == IF w.chain \in NativeCh THEN NativeOf(w.chain)
+                   ELSE IF w.chain = "custom" THEN <<"user">> ELSE <<>>
+           auth == IF Variant = "authNativeOnly" /\ w.chain \notin NativeCh THEN <<>> ELSE GatesOf(w.decl)
+       IN base \o auth \o [i \in 1..w.use |-> "use"]
+\* every gate the route declares stands between the client and the handler, whatever the wiring
+GateWired(w) == \A i \in 1..Len(GatesOf(w.decl)) : \E j \in 1..Len(ChainOf(w)) : ChainOf(w)[j] = GatesOf(w.decl)[i]
+
+\* A handler behind both gates runs only if both let the request through; it must run when both
+\* demand it.  401 is what the JWT gate owes a request without a valid token; when the other gate
+\* has its own reason to turn the request away, which of the two answers is not constrained (the
+\* statement does not order the gates).
+Meet(a, b) == IF a = "no" \/ b = "no" THEN "no" ELSE IF a = "yes" /\ b = "yes" THEN "yes" ELSE "either"
+BothReq(t, r, ran, hstatus, status, o) ==
+  /\ Allowed(Meet(JwtVerdict(t, prevCfg), CsVerdict(r)), ran)
+  /\ ran /\ r.swf = "ok" => RoundTrip(r, o)
+  /\ ran /\ ~Flushes(r) => status = hstatus
+  /\ ~ran /\ JwtVerdict(t, prevCfg) = "no" /\ CsVerdict(r) = "yes" => status = 401
+  /\ resp' = [gate |-> "both", calls |-> IF ran THEN 1 ELSE 0, status |-> status]
+  /\ cnt' = IF prevCfg
+              THEN IF ParsesUnder(t, First(cnt)) THEN Bump(cnt, First(cnt))
+                   ELSE IF ParsesUnder(t, Second(cnt)) THEN Bump(cnt, Second(cnt)) ELSE cnt
+              ELSE cnt
+  /\ UNCHANGED <<prevCfg, now, resetAt, wire>>
 
 (***************************************************************************)
 (* Sanity of the definitions                                               *)
@@ -279,6 +417,7 @@ KF_CsChunkedCipher(r, ran, hstatus, status, o) ==
 TypeOK ==
   /\ prevCfg \in BOOLEAN /\ cnt.cur \in Nat /\ cnt.prev \in Nat /\ now \in Nat /\ resetAt \in Nat
   /\ resp.calls \in {0, 1}
+  /\ wire \in Wirings
 \* when the JWT gate keeps the handler from running the answer is 401
 GateShut == resp.gate = "jwt" /\ resp.calls = 0 => resp.status = 401
 =============================================================================
